@@ -143,6 +143,9 @@ class Engine:
             self.snaps[nid] = {"files": frozenset(files), "rows": collections.Counter(vs["rows"]), "parent_true": parent_true,
                                "ancestors": anc, "seq": vs["seq"], "ts": vs["ts"], "mlist": vs["manifest_list"], "idx": len(self.order),
                                "manifests": list(vs["manifests"])}
+            if not getattr(self, "clock_stepped_back", False) and self.order and vs["ts"] < max(self.snaps[i]["ts"] for i in self.order):
+                # the clock never ran backwards, yet a LATER commit carries an EARLIER timestamp: as-of answers for past instants change
+                self.v("C09", "timestamp-order/" + op, f"snapshot {nid} committed after {self.order[-1]} carries timestamp {vs['ts']} < {max(self.snaps[i]['ts'] for i in self.order)} although the clock never stepped back")
             self.order.append(nid)
             for e in vs["entries"]:
                 p = norm(e["path"])
@@ -316,6 +319,8 @@ class Engine:
         return None  # policy decides; invariants constrain it
 
     def op_tick(self, s):
+        if s["ms"] < 0:
+            self.clock_stepped_back = True
         self.clock.tick(s["ms"])
 
     def op_reopen(self, s):
@@ -471,6 +476,41 @@ class Engine:
             del st_.write_file
         self._note_orphans("failed-commit")
         self._sync(expect_new=None, expect_removed=set(), op="failed_commit")
+
+    def op_racing_append(self, s):
+        """An append that LOSES a commit race: while its first commit attempt is on its way, a second handle commits an append
+        (forced, not timed: the interloper runs inside a one-shot wrapper around this handle's MetadataManager.commit); the
+        loser retries on the new base. The clock advances between the two. Model: the interloper's commit, then this one."""
+        import datashard
+
+        if self.open_txns:
+            return
+        rows_a, rows_b = self.rows(s["n"]), self.rows(1)
+        other = datashard.load_table(self.location)
+        mm = self.t.metadata_manager
+        orig = mm.commit
+        fired = [False]
+
+        def racing(base, new):
+            if not fired[0]:
+                fired[0] = True
+                self.clock.tick(7)
+                self._guard("racing_append", lambda: other.append_records(rows_b))
+                self._sync(expect_new={"files": self.cur_files(), "n_new": 1, "rows": self.cur_rows() + rows_multiset(rows_b)}, op="racing_append:interloper")
+                self.clock.tick(7)
+            return orig(base, new)
+
+        mm.commit = racing
+        try:
+            self._guard("racing_append", lambda: self.t.append_records(rows_a))
+        finally:
+            try:
+                del mm.commit
+            except AttributeError:
+                pass
+        if fired[0]:
+            self.labels["lost-commit-race"] += 1
+        self._sync(expect_new={"files": self.cur_files(), "n_new": 1, "rows": self.cur_rows() + rows_multiset(rows_a)}, op="racing_append")
 
     def _note_orphans(self, origin):
         from .reader import META_RE
@@ -640,6 +680,7 @@ def step_strategy(gc=True, clock_ticks="forward", props_ops=True, open_txn=True)
                       st.lists(st.integers(1, 2), max_size=3), st.lists(st.integers(0, 8), max_size=2), st.one_of(st.none(), CUT))),
         (1, st.just({"op": "failed_commit"})),
         (1, st.just({"op": "reopen"})),
+        (2, st.builds(lambda n: {"op": "racing_append", "n": n}, st.integers(1, 2))),
     ]
     if ticks is not None:
         ss.append((3, st.builds(lambda ms: {"op": "tick", "ms": ms}, ticks)))
